@@ -222,7 +222,7 @@ def run(repo: Repo, rep: Report) -> None:
             inst.w.call("active_vertices_not_adjacent_and_not_segmenting", inst.s, arr)
             refs, cons = ref_diagonal(h, w)
             same, diff = compare(inst, refs, cons)
-            if h * w <= 6:
+            if h * w <= 9:
                 xitems.append((f"{h}x{w} grid", inst, [a for a in inst.arrays if a["user"]][0]["ids"],
                                (lambda h=h, w=w: valid_patterns(h * w, grid_edges(h, w), True))))
             if same:
